@@ -3,9 +3,11 @@ package c20suite
 import (
 	"fmt"
 	"os"
+	"strconv"
 	"strings"
 	"syscall"
 	"testing"
+	"time"
 
 	"github.com/hack-pad/hackpadfs"
 	"github.com/hack-pad/hackpadfs/fstest"
@@ -16,6 +18,10 @@ import (
 // TestMain clears the process umask, as the repository's own os tests do: the suite compares exact permission bits.
 func TestMain(m *testing.M) {
 	syscall.Umask(0)
+	if h, err := strconv.Atoi(os.Getenv("C20_TZ_SHIFT")); err == nil && h != 0 {
+		// the verdict on a file system must not depend on the zone the test process happens to run in
+		time.Local = time.FixedZone(fmt.Sprintf("C20%+d", h), h*3600)
+	}
 	os.Exit(m.Run())
 }
 
@@ -67,6 +73,12 @@ func TestC20Baseline(t *testing.T) {
 	opts := fstest.FSOptions{Name: "baseline", TestFS: func(tb testing.TB) fstest.SetupFS { return New("", &fired) }}
 	fstest.FS(t, opts)
 	fstest.File(t, opts)
+	// the same with prefixed error paths under AllowErrPathPrefix: must be accepted as well
+	t.Run("prefixed", func(t *testing.T) {
+		popts := fstest.FSOptions{Name: "baseline-prefixed", Constraints: fstest.Constraints{AllowErrPathPrefix: true}, TestFS: func(tb testing.TB) fstest.SetupFS { return New("@prefix", &fired) }}
+		fstest.FS(t, popts)
+		fstest.File(t, popts)
+	})
 }
 
 // TestC20Deviants: one subtest per deviant; the suite must report at least one failure for each deviant whose
@@ -82,6 +94,9 @@ func TestC20Deviants(t *testing.T) {
 			fired := new(int64)
 			t.Cleanup(func() { fmt.Printf("C20FIRED %s %d\n", dev, *fired) })
 			opts := fstest.FSOptions{Name: "dev", TestFS: func(tb testing.TB) fstest.SetupFS { return New(dev, fired) }}
+			if strings.HasSuffix(dev, "@prefix") {
+				opts.Constraints.AllowErrPathPrefix = true
+			}
 			fstest.FS(t, opts)
 			fstest.File(t, opts)
 		})
